@@ -158,6 +158,7 @@ func init() {
 	// before the relink, the wrong node released) is filled in by its next taker: stored keys and
 	// values do not stay as inserted (C18)
 	impliedProps["R24"] = append(impliedProps["R24"], "C18")
+	impliedProps["R30"] = append(impliedProps["R30"], "C18") // an unsynchronised shared pool hands one node to two trees
 	// an operation that builds its probe key differently from the stored keys (the other result
 	// of Transform, a missing terminator) misses present keys and may hit another one: lookups,
 	// Range bounds, Prefix, and the no-op half of C15 (Delete of an absent key)
@@ -176,7 +177,7 @@ func init() {
 	impliedProps["R45"] = append(impliedProps["R45"], "C01", "C08", "C09")
 	impliedProps["R46"] = append(impliedProps["R46"], "C01", "C03", "C04", "C08", "C09", "C11")
 	impliedProps["R17"] = append(impliedProps["R17"], "C14", "C08")
-	impliedProps["R26"] = append(impliedProps["R26"], "C14", "C17")
+	impliedProps["R26"] = append(impliedProps["R26"], "C14", "C17", "C18") // a leaf that aliases the caller's buffer does not keep its key as inserted
 	// an encoding that is not an order isomorphism with exact round trip merges or misorders the
 	// keys of every tree built on it
 	impliedProps["R15"] = append(impliedProps["R15"], "C01", "C02")
